@@ -238,7 +238,8 @@ func RunIngest(sc IngestScenario) (evs []Ev, inconclusive string) {
 		return st["data_chan_len"] == 0 && in.C("proc.item")+st["input_dropped_count"] >= total
 	})
 	st := s.GetStats()
-	in.Log(Ev{"tr": sc.Tr, "e": "stats", "dropped": st["input_dropped_count"], "cap": st["data_chan_cap"], "len": st["data_chan_len"], "quiet": b2i(okq), "items": in.Count("proc.item")})
+	in.Log(Ev{"tr": sc.Tr, "e": "stats", "dropped": st["input_dropped_count"], "cap": st["data_chan_cap"], "len": st["data_chan_len"], "quiet": b2i(okq), "items": in.Count("proc.item"),
+		"input": st["input_count"], "output": st["output_count"], "outdrop": st["output_dropped_count"]})
 	in.Log(Ev{"tr": sc.Tr, "e": "quiesce"})
 	return in.Events(), ""
 }
